@@ -1196,6 +1196,15 @@ func runIDX(c *Ctx, r *Result, rule string, fns []*ssa.Function, reach *Reach) i
 					if w := l.indexBoundedBy(idx, recv); w != "" {
 						why = w
 					}
+					// mirrored index: Len-1-k with k the counter of an upward loop over 0..Len-1
+					if sub, isSub := idx.(*ssa.BinOp); why == "" && isSub && sub.Op == token.SUB {
+						base := bnorm(sub.X)
+						if base.c == -1 && base.n.v != nil && lenLike(base.n.v, recv, 0) || base.c == -1 && base.n.ln && base.n.v == recv {
+							if w := l.indexBoundedBy(sub.Y, recv); strings.HasPrefix(w, "index is the counted variable of a loop that starts at >= 0") {
+								why = "index is Len-1-k with k the counted variable of a loop over 0..Len-1 of the same value"
+							}
+						}
+					}
 				}
 				if why == "" {
 					lo := guardedCmp(idx, call.Block(), impliesNonNeg)
